@@ -393,6 +393,14 @@ def run_history(roots: list, ops: list, numeric: bool = False) -> dict:  # noqa:
             elif mk == "empty":
                 renames = {}
             ev["renames"] = renames
+            # whatever the kind: if two distinct symbols end up with the same name *and* the same
+            # assumptions they become one symbol, i.e. the rename is a merge (possible after collisions)
+            images: dict[tuple, int] = {}
+            for sym in all_symbols(model):
+                image = (renames.get(sym.name, sym.name), tuple(sorted(sym.assumptions0.items())))
+                images[image] = images.get(image, 0) + 1
+            if any(n > 1 for n in images.values()):
+                merged_now = True
             expression_names = {s.name for s in model.expression.free_symbols}
             for name in renames:
                 if name in slot["sources"] and name not in expression_names:
